@@ -58,10 +58,10 @@ CLAIMED = {
             "Theorems C04_integrity/C04_payload/C04_frames/C04_unaltered_accepted hold for every configuration and every received byte sequence. The per-run check alters each transfer at every offset (substitution, deletion, insertion, checksum-compensating pairs), feeds it to a real slave session and the slave's answers to a real master: a delivered message must be byte-identical to the queued one and the sender may record it sent only if it was delivered; the receiver is compared with the model on the same bytes.",
             "That CRC-16 plus size detect a given corruption is a property of the code (probabilistic for compensating changes), checked per run; 'alterations an independent reference also accepts' are those that leave the payload bytes intact (e.g. in the title).",
             "DESIGN.md section 6 C04"),
-    "C05": ("Independent Gallina grammar of B2F (extracted as the live judge) + reference peer written from the protocol text driving real sessions; Coq proofs that what the model side writes is accepted by the grammar's readers",
-            "Theorems C05_prompt/C05_answer_line/C05_decimal_fields hold for all proposal lines, answer lists and numbers. PARTIAL: the whole-session statement C05_conforming_statement is a Prop decided per run: 150 (2000) sessions of a real Session against the reference peer under random conforming choices (block sizes 1..256, all answer alphabets, zero-offset accepts, comments and ;PM lines, MOTD, ;FW with hashes, SID feature strings, early FQ, duplicate MIDs), judged by the peer's own checks, by the extracted Grammar validator replaying both recorded streams (payloads decoded by the independent Canon LZHUF), and by the prescribed outcome. One known finding: answer H.",
+    "C05": ("Independent Gallina grammar of B2F (extracted as the live judge) + reference peer written from the protocol text driving real sessions; Coq proof that every complete session of two model sides with conforming configurations is accepted by the grammar in full, and that what the model side writes is accepted by the grammar's readers",
+            "Theorems C05_prompt/C05_answer_line/C05_decimal_fields hold for all proposal lines, answer lists and numbers. C05_pair_conforms: both streams of every complete session of two library sides with conforming configurations (spelled out, each clause shown necessary) are accepted by the independent grammar; the one-sided statement as first written is refuted in Coq (C05_first_statement_refuted). PARTIAL: the library against an arbitrary conforming peer is decided per run: 150 (2000) sessions of a real Session against the reference peer under random conforming choices (block sizes 1..256, all answer alphabets, zero-offset accepts, comments and ;PM lines, MOTD, ;FW with hashes, SID feature strings, early FQ, duplicate MIDs), judged by the peer's own checks, by the extracted Grammar validator replaying both recorded streams (payloads decoded by the independent Canon LZHUF), and by the prescribed outcome. One known finding: answer H.",
             "The reference peer is Go code in the harness (independent of package fbb, uses the library's lzhuf only to read payloads; the grammar uses Canon); the documents leave the sender's reaction to 'E' open: the peer does not send it.",
-            "DESIGN.md section 6 C05"),
+            "DESIGN.md section 6 C05 and section 11.11"),
     "C10": ("Coq proof of the mailbox invariants over all well-formed histories (no duplicate MIDs, outbox/sent partition, answer rule, eligibility, one-session deferral) + every observation of a real DirHandler compared with the model over random histories with restarts",
             "Theorems C10_invariant/C10_partition/C10_answer/C10_eligible/C10_deferral/C10_inbound hold for every history of the folder-level model; the model is tied to mailbox/syncdir.go by running 400 (5000) random histories of up to 40 operations (AddOut, Prepare, restart in normal and send-only mode, GetOutbound for CMS and P2P forwarder lists, SetSent, SetDeferred, ProcessInbound, GetInboundAnswer, SetUnread, listings) on a temporary directory and comparing every observation, including the absence of private headers on returned messages and the file-name listing order.",
             "A stored message is abstracted to MID, receiver strings, P2P-only and unread flags and a content tag (message serialisation is C09's); the file system is the operating system's (ReadDir order validated by correspondence); log.Fatalf of SetSent on a missing file is modelled as a fatal observation and exercised in a child process.",
